@@ -5,6 +5,8 @@ Driver for Model/Iast.lean at ℚ:   lake env lean --run PgVerif/Drv/Iast.lean
   sel n0 n1 y0 y1               -> ok n/d
   vle n0 n1                     -> ok n/d
   pcert [ps] [ls] [logs] q lgLast -> ok n0 sp | none     (Model/IastPoint.lean: loading and spreading pressure from the raw data)
+  pcertb [ps] [ls] [marks] b [logs] q lgLast -> ok n0 sp | none   (stored rows of the whole isotherm, branch marks, requested branch 0 = ads / 1 = des:
+                                                                  selection, orientation (desorption rows reversed), origin guard, certificate)
   resid [loads] [pp] [n0] [sp]  -> ok [x] [p0] [spreadDiffs] mixingResidual valid    (certificate arithmetic on a returned result)
 -/
 import PgVerif.Model.IastPoint
@@ -40,6 +42,14 @@ def step (ts : List String) : String :=
       | some (n0, sp) => s!"ok {showRat n0} {showRat sp}"
       | none => "none"
     | _, _, _, _, _ => "bad-op"
+  | ["pcertb", ps, ls, marks, b, logs, q, lg] =>
+    match ratList ps, ratList ls, (parseList marks).bind (·.mapM String.toNat?), b.toNat?, ratList logs, parseRat q, parseRat lg with
+    | some ps, some ls, some marks, some b, some logs, some q, some lg =>
+      if ps.length ≠ ls.length ∨ ps.length ≠ marks.length then "bad-op" else
+      match pointCertBranch (α := ℚ) ps ls marks b logs q lg with
+      | some (n0, sp) => s!"ok {showRat n0} {showRat sp}"
+      | none => "none"
+    | _, _, _, _, _, _, _ => "bad-op"
   | ["resid", loads, pp, n0, sp] =>
     match ratList loads, ratList pp, ratList n0, ratList sp with
     | some loads, some pp, some n0, some sp =>
